@@ -78,6 +78,15 @@ Definition al := approx_list.
             for op in ("ov_lin", "iov", "ov_pc"):
                 cases.append(self.mk(rng, op, a, rng.choice([2, 3, 4])))
             cases.append(self.mk(rng, "ext_lin", a, 2, direction=rng.choice(list(DIRS))))
+        # explicit end values of exactly 0 (fading a series out to zero / in from zero): an end value like any other
+        for L in (3, 5, 8):
+            a0 = gens.sorted_x(rng, L, rng.choice(["dyadic", "int"]))
+            a0 = [v + 6.0 for v in a0]                    # (away from 0, so that the ramp to 0 differs from the default continuation)
+            for d in DIRS:
+                for ls, rs in ((0.0, 0.0), (None, 0.0), (0.0, None), (0, 0)):
+                    cz = self.mk(rng, "ext_lin", a0, rng.randint(1, L - 1), direction=d, explicit=True)
+                    cz["lstart"], cz["rstop"] = ls, rs
+                    cases.append(cz)
         # integer counters beyond 2^53 in an int64 array (byte counters, epoch nanoseconds): the helpers that only *copy* elements
         # (piecewise-constant oversampling, constant extension) keep every original element as it is — not its nearest double
         for _ in range(4 if tier == "quick" else 20):
